@@ -1,5 +1,5 @@
 """property -> rules"""
-from . import rules_dd, rules_bounds, rules_limits, rules_tools, rules_conv, rules_handles, rules_access, rules_coders, rules_errors, rules_layout, rules_ann
+from . import rules_dd, rules_bounds, rules_limits, rules_tools, rules_conv, rules_handles, rules_access, rules_coders, rules_errors, rules_layout, rules_ann, rules_mem
 
 CLANG = "clang 14 parser, constant evaluator and CFG builder (via tools/h4x.cc)"
 CDB = "compile flags taken from ninja -t compdb of /repo/_build (or a throw-away cmake configure)"
@@ -115,14 +115,16 @@ PROPS["C05"] = {
 }
 
 PENDING = {}
-PENDING["C16"] = {
-    "rules": [rules_errors.rule_F4],
+PROPS["C16"] = {
+    "rules": [rules_errors.rule_F4, rules_errors.rule_attach_on_fail, rules_mem.rule_mem],
     "level": "other",
-    "explanation": "TODO",
-    "rule_text": "TODO",
-    "trusted": [CLANG, CDB],
-    "assumptions": [],
-    "level_text": "TODO", "level_note": "TODO", "technique": "TODO",
+    "explanation": "Decides structural necessary conditions of 'an I/O failure is reported and never corrupts memory'. (F4) The failure-propagating set W is computed from the source: the stdio/posix primitives, the frozen core of write/commit functions, every function stored in a write/endaccess/pgout slot, closed under 'tests the result of a member and returns its own fail value, or returns the result'. For every call site of a member of W, on every path of the caller (path-sensitive product analysis over the clang CFG), the result is tested, returned, stored where it is read again, or the path already returns the caller's fail value; a result that is dropped, cast to void, overwritten unseen, or seen to fail while the caller returns success ('swallowed', decided for the seed functions only) is a violation. (ATTACH) Lemma behind the one accepted drop idiom: no end-of-access routine returns FAIL after decrementing file_rec->attach, and Hclose returns FAIL while attach > 0 -- so a failed end-of-access whose result a caller ignores is still reported by the final close. (M1) no object is released twice on a path on which a member of W failed (free, HIrelease_accrec_node, and calls to functions summarised as 'releases its argument whenever it fails', also through the endaccess slot); (M2) no stdio call receives a stream that is NULL on such a path; (M3) error clean-up frees only what the function allocated or NULL, not a node it took from a list. Not decided: whether the bytes in the file equal the fault-free bytes (value-level); swallowing the failure of a *derived* function, whose fail value also means not-found/end-of-list (two such cases observed by fault injection are described in DESIGN.md); NULL results dereferenced through aliases; crashes caused by re-reading a half-written header (the divisor checks of fix 25f3031 have no static rule).",
+    "rule_text": "instances = call sites of W members per (caller, callee); end-of-access routines and Hclose (ATTACH); release sites, stdio calls on named streams and clean-up frees per function (M1-M3); non-trivial = needed the path-sensitive analysis (a result consumed across statements, a guard on the returned variable, a release reached from more than one path)",
+    "trusted": [CLANG, CDB, "frozen seed list W_CORE and the per-site exception table F4_SITE_EXCEPT / rules/f4_unconfirmed.txt (each entry one named function+callee with its reason)"],
+    "assumptions": ["stdio results are the only source of storage failures (no signals, no mmap)", "a function whose failure is tested and answered by the caller's fail value reports it (error codes are not compared)"],
+    "level_text": "All-paths error-propagation and ownership typestate over every function of the library: each of the ~800 call sites that can observe a storage failure is decided on every path, which no fault-injection test can enumerate (the suite injects none).",
+    "level_note": "Trusted: clang front end/CFG, build flags, the seed list. A fault-injection sweep (triage/c16_sweep.c) was used only to triage reports on the unchanged tree: 24 defects fixed, 7 candidates recorded as unconfirmed, see DESIGN.md.",
+    "technique": "path-sensitive error-propagation and release typestate dataflow over clang CFGs, with computed failure-propagation closure and release-on-failure summaries",
 }
 
 
